@@ -11,6 +11,7 @@ ASSUMPTIONS = ["hand-written model of cellToParent/cellToChildrenSize/cellToCent
 ASSUMPTIONS.append("the loop-faithful iterator model (iterInitParent / iterStepChild with _skipDigit and the _incrementResDigit "
                    "carry loop) is PROVED equal to the specification-level enumeration for every 64-bit parent and every child "
                    "resolution (C04Iter.cellToChildren_eq), so the C04 theorems hold of the model that is compared with C")
+ASSUMPTIONS.append("cellToParent, _hasChildAtRes, cellToCenterChild, cellToChildrenSize (with _ipow(7, 0..15)) and isPentagon are translated from the C text on every run (tools/c2lean.py: out parameters as extra results, loops unrolled) and PROVED equal to the model functions, error codes and 'output untouched on error' included (C04Gen: *_eq_model, *_defined_all): these model functions are tied to the code by translation and proof, not only by correspondence")
 NOT_PROVED = ["centre coincidence in radians (float) is exercised by the evaluator only"]
 EXPLANATION = ("hierarchy theorems about the model (error codes, child counts, centre child) + exact "
                "correspondence of children lists with the real iterator; evaluator compares the real library "
